@@ -4,7 +4,7 @@ from lin import Lin, entails_eq
 from paths import explore
 from sym import fmt, walk
 from callgraph import CallGraph
-from rules.common import Anchors, path_calls, ret_kind, root_param, arg_loc
+from rules.common import adt_base, Anchors, path_calls, ret_kind, root_param, arg_loc
 import stdmodel as SM
 
 LEVEL = 'proof'
@@ -201,7 +201,7 @@ def r07_3(ctx, A):
                     # argument rooted at self.<inner> (through reference temporaries)
                     if A.cw_inner in loc[1:2] and f.local_ty(loc[0]).find(A.cw) >= 0:
                         passes = True
-        is_cw_method = bool(f.impl) and f.impl['self_ty'].startswith(A.cw) and not f.impl.get('trait_path')
+        is_cw_method = bool(f.impl) and adt_base(f.impl['self_ty']) == A.cw and not f.impl.get('trait_path')
         if is_cw_method and not passes and not uses_in_calls:
             getters.add(f.path)
             ctx.ok(R, 'access:' + f.path, 'getter / constructor of the adapter (hands the writer out, never writes)', fn=f)
